@@ -8,7 +8,7 @@ from contracts.spec_config import N
 from flamapy.metamodels.fm_metamodel.operations import FMEstimatedConfigurationsNumber
 
 
-def check_model(run, desc, op=None):
+def check_model(run, desc, op=None, known=None):
     m = M.build_model(desc)
     key = json.dumps(desc, sort_keys=True)
     before = snapshot(m)
@@ -20,11 +20,12 @@ def check_model(run, desc, op=None):
         run.case('returns', key, False, 'no result within the time limit', desc)
         return
     except Exception as e:  # noqa: BLE001
-        run.case('no exception', key, False, f'{type(e).__name__}: {e}', desc)
+        run.case('no exception', key, False, f'{type(e).__name__}: {e}', desc, known=known)
         return
     if not desc.get('ctcs'):
-        run.case('exact without constraints', key, got == exact_tree, f'estimate {got}, exact {exact_tree}', desc)
-        run.case('bridge: spec N(root) == brute force', key, N(m.root) == exact_tree, f'N {N(m.root)} exact {exact_tree}', desc)
+        run.case('exact without constraints', key, got == exact_tree, f'estimate {got}, exact {exact_tree}', desc, known=known)
+        if known is None:      # the specification function N is defined on 0 <= min <= max <= n (the verifier's well-formedness)
+            run.case('bridge: spec N(root) == brute force', key, N(m.root) == exact_tree, f'N {N(m.root)} exact {exact_tree}', desc)
     else:
         exact = len(d_valid_configs(desc, with_ctcs=True))
         run.case('upper bound with constraints', key, got >= exact and got == exact_tree,
@@ -45,6 +46,8 @@ def main():
         names = [f['name'] for f, _, _ in d_features(d)]
         d['ctcs'] = [{'name': f'c{i}', 'ast': M.random_ctc(run.rng, names, 2)} for i in range(run.rng.randint(1, 3))]
         check_model(run, d)
+    for d in star_models():
+        check_model(run, d, known=UNBOUNDED)
     for _ in range(30 if quick else 300):
         op = FMEstimatedConfigurationsNumber()
         for _ in range(3):
